@@ -4,7 +4,7 @@ from __future__ import annotations
 
 import ast
 
-from sa.cfg import ALL_GROUPS, G_EXC, G_PAUSE, dominators, reachable, reaches, specialize
+from sa.cfg import ALL_GROUPS, G_EXC, G_PAUSE, all_paths_pass, dominators, reachable, reaches, specialize
 from sa.db import AnalysisError, FuncInfo, dotted, src, walk_local
 from sa.flow import defs_reaching, reaching_defs
 from sa.model import contains, enclosing, execute_impl_funcs, is_user_func_call, superstep_funcs
@@ -206,6 +206,41 @@ def run(ctx) -> None:
     live_none = reachable(cfg.entry, specialize({f"{rv} is None": True for rv in rvars}))
     late_returns = [r for r in rets if r not in resume and r in live_none]
     rep.add("C14.R4", f"{call.qname}:pause-returns-nothing", not late_returns, call.loc(), "when the handler returns None no outputs are returned (nothing is written, no dependant becomes ready)" if not late_returns else f"outputs can be returned at line {late_returns[0].lineno} although the handler returned None")
+
+    # the value tested for 'None means pause' is the handler's *resolved* answer: in the function that calls the
+    # handler, every normal path from the call to a return passes the isawaitable test on its result, whose true
+    # branch awaits it; and the executor's tested variable is the awaited result of that function
+    ok, why = False, "the handler call was not found"
+    callers = []
+    for f in [call] + [g for g in db.all_funcs() if g.module == call.module and g.cls is None and g.parent is None]:
+        for c in db.calls_in(f):
+            if is_user_func_call(db, c, f):
+                callers.append((f, c))
+    for f, c in callers:
+        fcfg = ctx.cfg(f)
+        un = fcfg.node_containing(c)
+        stmt = un[0].ast if un else None
+        tgt = stmt.targets[0].id if isinstance(stmt, ast.Assign) and isinstance(stmt.targets[0], ast.Name) else None
+        tests = [n for n in fcfg.nodes if n.kind == "test" and n.ast is not None and tgt and any(isinstance(x, ast.Call) and (dotted(x.func) or "").split(".")[-1] == "isawaitable" and x.args and src(x.args[0]) == tgt for x in ast.walk(n.ast))]
+        awaited = [n for n in fcfg.nodes if n.kind == "stmt" and isinstance(n.ast, ast.Assign) and isinstance(n.ast.value, ast.Await) and tgt and src(n.ast.value.value) == tgt and src(n.ast.targets[0]) == tgt]
+
+        def no_exc(a, b, l, i):
+            return l != "exc"
+
+        if tgt is None:
+            ok, why = False, f"the handler's result is not bound to a local in {f.name}() (it leaves the function unresolved)"
+        elif not tests or not awaited:
+            ok, why = False, f"{f.name}() hands the handler's result on without the isawaitable/await step"
+        else:
+            ok = all(all_paths_pass(u, fcfg.exit_return, tests, no_exc) for u in un) and all(any(t is a or reaches(t, a) for a in awaited) for t in tests)
+            why = "the handler's result is awaited when awaitable on every path before it is returned" if ok else "a path returns the handler's result without the isawaitable/await step"
+        if ok and f is not call:
+            # the executor tests the awaited result of f
+            tested = {v for v in rvars}
+            defs_ok = all(any(isinstance(getattr(d, "value", None), ast.Await) and isinstance(d.value.value, ast.Call) and f.name in call_names(db, d.value.value, call) for d in db.local_defs(call).get(v, [])) for v in tested) and bool(tested)
+            if not defs_ok:
+                ok, why = False, f"the executor's pause test is not applied to 'await {f.name}(...)'"
+    rep.add("C14.R4", f"{call.qname}:pause-test-on-resolved-answer", ok, call.loc(), why if ok else f"{why}: an async handler that resolves to None is taken for an answer (the coroutine object is not None) — the run completes with decision None instead of pausing")
 
     # ---- R5 ---------------------------------------------------------------------
     ge = db.cls("runners.async_.executors.graph_node.AsyncGraphNodeExecutor")
